@@ -70,7 +70,7 @@ def _cases(draw, tier):
     # perturbations
     out = []
     for stp in steps:
-        mode = draw(st.sampled_from(["ok"] * 6 + ["dup", "dup", "stale", "drop", "vanished", "replay", "startup"]))
+        mode = draw(st.sampled_from(["ok"] * 6 + ["dup", "dup", "stale", "drop", "vanished", "replay", "startup", "late", "late"]))
         out.append({"op": stp, "p": mode})
     if draw(st.integers(0, 2)) == 0:
         out.append({"op": ["end"], "p": draw(st.sampled_from(["replay", "startup"]))})
@@ -241,7 +241,7 @@ def run_case(case):
 
     irregular = any(s["p"] != "ok" for s in case["steps"])
     nrf = sum(c["nfiles"] for c in case["chans"])
-    res.nontrivial = any(s["p"] in ("dup", "stale", "vanished", "replay", "startup") for s in case["steps"]) or (case["method"] == "move" and nrf >= 3)
+    res.nontrivial = any(s["p"] in ("dup", "stale", "vanished", "replay", "startup", "late") for s in case["steps"]) or (case["method"] == "move" and nrf >= 3)
     res.cls("method:" + case["method"])
     if case["xdev"]:
         res.cls("cross-device")
@@ -303,7 +303,13 @@ def _run(case, res, base, stage, src, dest, ev, drf, list_drf, mirror):
         processed = set()  # relpaths whose (latest) events reached the mirror
         history = []  # final-name relpaths reported so far
 
+        deferred = []  # events of "late" steps: delivered after the events of the following step (reordering)
+        holding = [False]
+
         def dispatch(e, match_time=True):
+            if holding[0]:
+                deferred.append((e, match_time))
+                return
             with contextlib.redirect_stdout(io.StringIO()), contextlib.redirect_stderr(io.StringIO()):
                 for h in handlers:
                     if match_time:
@@ -329,6 +335,7 @@ def _run(case, res, base, stage, src, dest, ev, drf, list_drf, mirror):
         for si, stp in enumerate(case["steps"]):
             op, pert = stp["op"], stp["p"]
             res.evaluations += 1
+            holding[0] = pert == "late"
             try:
                 if op[0] == "props":
                     ci = op[1]
@@ -419,12 +426,24 @@ def _run(case, res, base, stage, src, dest, ev, drf, list_drf, mirror):
                         created(rel)
                 elif pert == "startup":
                     startup()
+                if not holding[0] and deferred:
+                    late_events = list(deferred)
+                    del deferred[:]
+                    for e_, mt_ in late_events:
+                        dispatch(e_, mt_)
             except Exception as e:
                 res.fail("exception:%s" % type(e).__name__, "step %d %r: %s" % (si, stp, e))
                 return
             if world.fail:
                 res.fail(world.fail[0] + ":" + case["method"], "step %d %r: %s" % (si, stp, world.fail[1]))
                 return
+        # deliver what is still held back
+        holding[0] = False
+        for e_, mt_ in list(deferred):
+            dispatch(e_, mt_)
+        if world.fail:
+            res.fail(world.fail[0] + ":" + case["method"], "late events at the end: %s" % world.fail[1])
+            return
     res.evaluations += world.checks
     # ---- end state
     sel = set()
